@@ -322,6 +322,7 @@ func (bf *buffer) ReadPeek(n int) ([]byte, error) {
 	bf.ccond.L.Lock()
 	for ppos = bf.pseq.get(); cpos >= ppos; ppos = bf.pseq.get() {
 		if bf.isDone() {
+			bf.ccond.L.Unlock()
 			return nil, io.EOF
 		}
 
